@@ -53,6 +53,10 @@ def eval_group(ctx: Ctx, rep: Report, fn: FuncInfo, rule: str) -> bool:
         cases.append((n, 2 * n, "continuation"))
         cases.append((n, 2 * n + (1 if n > 1 else 0), "continuation"))
     cases.append((2, 4, "one-outside"))
+    # some roots are finished already: fewer continuation OIDs than user roots
+    for n in (1, 2):
+        cases.append((n, 3 * n, "shrunk"))
+        cases.append((n, 2 * n + (1 if n > 1 else 0), "shrunk"))
     decided = []
     for n, m, mode in cases:
         user = [OidVal((1, 3, 10 * (i + 1))) for i in range(n)]
@@ -62,6 +66,8 @@ def eval_group(ctx: Ctx, rep: Report, fn: FuncInfo, rule: str) -> bool:
             eff = [OidVal(tuple(u) + (7, i)) for i, u in enumerate(user)]  # continuation OIDs lie inside their root
             if mode == "one-outside":
                 eff[1] = OidVal((1, 3, 99, 1))
+            if mode == "shrunk":
+                user = [OidVal((1, 3, 5))] + user + [OidVal((1, 3, 77)), OidVal((1, 3, 78))]  # finished roots around
         V = [mk_varbind(ctx, tuple(eff[k % n]) + (k // n + 1,), f"v{k}") for k in range(m)]
         args: List[Any] = [V, eff]
         kwargs = {} if mode is None else {"user_roots": user}
@@ -71,7 +77,7 @@ def eval_group(ctx: Ctx, rep: Report, fn: FuncInfo, rule: str) -> bool:
             return False
         want: Dict[Any, List[Any]] = {}
         for i in range(n):
-            key = eff[i] if mode is None else (user[i] if eff[i] in user[i] else None)
+            key = eff[i] if mode is None else next((u for u in user if eff[i] in u), None)
             if key is not None:
                 want[key] = V[i::n]
         ok = kind == "return" and isinstance(got, dict) and set(got) == set(want) and all(len(got[k]) == len(want[k]) and all(a is b for a, b in zip(got[k], want[k])) for k in want)
